@@ -895,6 +895,12 @@ def run(chk: common.Check):
         else:
             common.broken_obligation(chk, broken, search)
 
+    # the event queue as the simulator uses it (re-timings followed by a conditional reheapify, removals, same-instant
+    # events): every pop of end-to-end runs of the real simulator must return the earliest queued event
+    from harness.suites import _e2e_common as e2e
+
+    e2e.run_suite(chk, "C16", n_quick=100, n_thorough=1500, streams=("regular", "dag", "batch", "regular"))
+    e2e_rule = chk.rule
     chk.exhaustive = False
     chk.rule = (
         "time: every unary/pair case over the value grid x {US,MS,S} (exhaustive for the grid; grid includes 0, +-1, "
@@ -906,7 +912,7 @@ def run(chk: common.Check):
         "Event objects (real Task and Placement) with few distinct times (ties across units), types and names; 90% "
         "well-formed, 5% API-misuse (queued event re-timed without reheapify: order not judged until the next "
         "heapify), 5% ill-formed events (compared with the model only); non-trivial = at least one successful pop "
-        "while other events were pending; distinct = by canonical case hash."
+        "while other events were pending; distinct = by canonical case hash. || end-to-end: " + e2e_rule
     )
     chk.assumptions += [
         "time values are judged by the oracle only when every operand is below 2^53 microseconds in magnitude (the property's bound); beyond it the model (exact integer model of double rounding) is still compared with the code",
@@ -918,6 +924,10 @@ def run(chk: common.Check):
 def replay(path) -> int:
     """Re-run one replay file against the repository alone. Exit code 1 = reproduced."""
     data = json.loads(open(path).read())
+    if data.get("suite") == "sim":
+        from harness.suites import _e2e_common as e2e
+
+        return e2e.replay("C16", path)
     if "case" not in data:
         # a broken obligation without a failing input: re-check the obligations themselves
         # (tables regenerated from the repository, lake build, axiom audit)
